@@ -350,3 +350,23 @@ Definition pt_instr (n : nat) (regs : list plimbs) (ins : instr) : list plimbs :
   end.
 Definition pt_prog (n : nat) (prog : list instr) (regs : list plimbs) : list plimbs :=
   fold_left (pt_instr n) prog regs.
+
+(* ================================================================================================ *)
+(* Spec level: torus values.  A limb list (most significant first, radix 2^b) denotes sum_j x_j 2^(-(j+1) b);
+   val_of is that number scaled by 2^P.  valp: the polynomial of values of a column; VP: the phase of the values
+   (= the value of the limb-wise phase: C02_value_of_phase).  tor_dist: distance to 0 on R/Z, scaled by 2^P. *)
+Fixpoint lval (P b : Z) (j : Z) (l : list Z) : Z :=
+  match l with
+  | [] => 0
+  | x :: t => x * 2 ^ (P - (j + 1) * b) + lval P b (j + 1) t
+  end.
+Definition val_of (P b : Z) (l : list Z) : Z := lval P b 0 l.
+Definition coeff_limbs (c : limbs) (t : nat) : list Z := map (fun l => nthZ l t) c.
+Definition valp (P b : Z) (n : nat) (c : limbs) : list Z := map (fun t => val_of P b (coeff_limbs c t)) (seq 0 n).
+Definition VP (P b : Z) (n : nat) (s : list (list Z)) (g : glwe) : list Z :=
+  padd (valp P b n (gcol g 0)) (psum n (map (fun i => pmul (nth i s []) (valp P b n (gcol g (S i)))) (seq 0 (length s)))).
+Definition tor_dist (P x : Z) : Z := Z.abs (wrap P x).
+
+(* the generic column loop of the shift / normalise family: column i of res from column i of a, coefficient by coefficient *)
+Definition colloop (f : list Z -> list Z -> option (list Z)) (n : nat) (res a : glwe) : option glwe :=
+  mapi_cols_opt res (fun i r0 => col_coeff f n (gcol a i) r0).
